@@ -357,7 +357,10 @@ func inject(rt *rapid.T, b *base, kind string) bool {
 		for fi, f := range c.Files {
 			for i, it := range f.Items {
 				if it.Kind == "token" && it.Name == owner {
-					b.insert(site{fi, i + 1}, &Item{Kind: "token", Name: "AMB", Lines: []string{"AMB = '" + lit + "'"}})
+					// one, two or three further tokens with the same literal (any number >1 is ambiguous)
+					for k, n := 0, ri(rt, 1, 3, "namb"); k < n; k++ {
+						b.insert(site{fi, i + 1}, &Item{Kind: "token", Name: fmt.Sprintf("AMB%d", k), Lines: []string{fmt.Sprintf("AMB%d = '%s'", k, lit)}})
+					}
 				}
 			}
 		}
@@ -551,7 +554,7 @@ func TestC17(t *testing.T) {
 	if run.Violations() > 0 {
 		return
 	}
-	n := run.N(6000, 100000)
+	n := run.N(6000, 500000)
 	f := run.Check("specs", n, 8, func(rt *rapid.T, fail ev.FailFunc) {
 		b := genBase(rt)
 		c := b.c
